@@ -7,7 +7,7 @@
     WB.Abi.Check.check_dealloc / check_post_return evaluated by the check on the REAL streams; two genuine
     defects it found are repaired (known-findings.txt: fixed). *)
 From Coq Require Import List NArith Bool.
-From WB Require Import Wit.Ty Abi.Sig Abi.Gen Abi.Check Abi.DeallocProofs.
+From WB Require Import Wit.Ty Abi.Sig Abi.Instr Abi.Gen Abi.Check Abi.DeallocProofs Abi.GenDiscipline Abi.GenDeallocDiscipline.
 Import ListNotations.
 
 Theorem C03_lists_cleanup_iff_heap : forall t, needs_deallocate DLists t = has_heap t.
@@ -24,6 +24,16 @@ Theorem C03_params_have_allocations_iff : forall fn,
   guest_export_params_have_allocations fn = existsb has_heap (f_params fn).
 Proof. exact params_have_allocations_iff. Qed.
 
+(** The in-memory cleanup traversal (deallocate_indirect), for EVERY type, cleanup mode, address operand and offset:
+    no panic site is reached and the operand stack is left exactly as found - every pointer/length pair it loads is
+    consumed by exactly one GuestDeallocate*, every loaded handle by one DropHandle, every loaded discriminant by
+    one GuestDeallocateVariant. *)
+Theorem C03_memory_cleanup_traversal_is_stack_neutral : forall w t addr off s st,
+  stack s = st ->
+  ok_with (dealloc_indirect w t addr off) s (fun _ s' => stack s' = st /\ frame s s').
+Proof. exact dealloc_indirect_ok. Qed.
+
+Print Assumptions C03_memory_cleanup_traversal_is_stack_neutral.
 Print Assumptions C03_lists_cleanup_iff_heap.
 Print Assumptions C03_own_cleanup_iff.
 Print Assumptions C03_post_return_iff_heap.
